@@ -878,7 +878,8 @@ class TimePDF(
         # Get sum, S, of the integrals for each detector on-time interval during
         # the time flux profile, in order to be able to rescale the time flux
         # profile to unity with overlapping detector off-times removed.
-        self._S = self._calculate_sum_of_ontime_time_flux_profile_integrals()
+        self._S = None
+        self._update_time_axis_and_S()
 
     @property
     def livetime(self):
@@ -927,6 +928,57 @@ class TimePDF(
         time_axis.vmax = self._livetime.time_window[1]
 
         self._S = self._calculate_sum_of_ontime_time_flux_profile_integrals()
+
+        # Remember the state of the live-time and of the time flux profile S
+        # has been calculated for.
+        (self._S_uptime_mjd_intervals_arr,
+         self._S_time_flux_profile_state) = self._get_S_dependencies()
+
+        # Pre-calculated probability density values are not valid anymore.
+        self._pd = None
+
+    def _get_S_dependencies(self):
+        """Returns the quantities the normalization S depends on: the array
+        holding the detector up-time intervals and the state of the time flux
+        profile, i.e. its time window and its parameter values.
+        """
+        profile = self._time_flux_profile
+        profile_state = (
+            (profile.t_start, profile.t_stop) +
+            tuple(profile.get_param(name) for name in profile.param_names)
+        )
+
+        return (self._livetime.uptime_mjd_intervals_arr, profile_state)
+
+    def _is_S_up_to_date(self):
+        """Checks if the live-time and the time flux profile are still in the
+        state the normalization S has been calculated for. The Livetime and the
+        TimeFluxProfile instances can be altered from outside this PDF, e.g.
+        when a time flux profile is shared with an other PDF.
+        """
+        (uptime_mjd_intervals_arr, profile_state) = self._get_S_dependencies()
+
+        return (
+            (uptime_mjd_intervals_arr is self._S_uptime_mjd_intervals_arr) and
+            (profile_state == self._S_time_flux_profile_state)
+        )
+
+    def _ensure_S_is_up_to_date(self):
+        """Recalculates the normalization S (and updates the time axis) if the
+        live-time or the time flux profile has changed since S has been
+        calculated.
+
+        Returns
+        -------
+        updated : bool
+            Flag if S had to be recalculated.
+        """
+        if self._is_S_up_to_date():
+            return False
+
+        self._update_time_axis_and_S()
+
+        return True
 
     def __str__(self):
         """Pretty string representation of the time PDF.
